@@ -96,6 +96,7 @@ G0 == [role |-> "", ver |-> "", idw |-> 16,
        peerRM |-> 0, ownRM |-> 0, peerTAM |-> 0, ownTAM |-> 0, peerMPS |-> NoLimit, ownMPS |-> NoLimit,
        rx |-> {}, aliasIn |-> {},         \* [a, t]: the receiver's table of what we sent / of what we received
        ka |-> 0, ska |-> -1, user |-> -1, respTimeout |-> 0,
+       skew |-> 0,                        \* observed - expected vacancy after a reported C12a violation (re-synchronisation)
        newSess |-> FALSE,                 \* a new session has started on the current connection (C10)
        shadow |-> "none"]
 
@@ -245,6 +246,7 @@ GhostStep(g, prev, r) ==
      !.user = IF op = "set_interval" THEN r.call.val ELSE @,
      !.respTimeout = IF op = "set_resp_timeout" THEN r.call.val ELSE @,
      !.newSess = IF isConn THEN cp.clean ELSE IF ckOk /\ ~ck.sp THEN TRUE ELSE IF op \in {"closed", "crash"} THEN FALSE ELSE @,
+     !.skew = IF isConn THEN 0 ELSE @,
      !.shadow = r.shadow]
 
 (* ===================================================================== C05 *)
@@ -393,7 +395,7 @@ ViolC12(g, prev, r, g2) ==
   LET p == CP(r) IN
   (IF r.panic THEN {"C12c-panic"} ELSE {})
   \cup (IF ~r.panic /\ g2.ver = "v50" /\ g2.conn = "connected" /\ g2.peerRM > 0
-           /\ r.obs.vacancy \notin { IF g2.peerRM > n THEN g2.peerRM - n ELSE 0 : n \in Counts(g2.inflight) }
+           /\ r.obs.vacancy - g2.skew \notin { IF g2.peerRM > n THEN g2.peerRM - n ELSE 0 : n \in Counts(g2.inflight) }
         THEN {"C12a-vacancy"} ELSE {})
   \cup (IF IsSend(r, {"publish"}) /\ p.qos > 0 /\ ~r.panic /\ g.ver = "v50" /\ g.conn = "connected" /\ g.peerRM > 0
            /\ SendsK(r.out, {"publish"}) # <<>> /\ \A n \in Counts(g.inflight) : n >= g.peerRM
@@ -530,7 +532,7 @@ GateAllows(g, p) ==
 GateOnly(g, p) ==
   /\ (Opens(p) \/ p.kind = "pubrel") => p.pid \in g.used
   /\ p.size <= g.peerMPS
-  /\ p.kind = "publish" => (p.alias = 0 /\ p.topic # "" /\ (p.qos = 0 \/ g.peerRM = 0 \/ \A n \in Counts(g.inflight) : n < g.peerRM))
+  /\ p.kind = "publish" => (p.alias = 0 /\ p.topic # "" /\ (p.qos = 0 \/ g.peerRM = 0 \/ g.conn # "connected" \/ \A n \in Counts(g.inflight) : n < g.peerRM))
 
 DigSansUsed(d) == [d EXCEPT !.used = <<>>]
 
@@ -611,6 +613,21 @@ ViolC16(g, prev, r, g2) ==
   \cup (IF ~SameEvents(SelectSeq(r.out, LAMBDA e : e.ev \in {"send", "recv", "error", "released", "close"}),
                        SelectSeq(r.outF, LAMBDA e : e.ev \in {"send", "recv", "error", "released", "close"}))
         THEN {"C16-events-differ"} ELSE {})
+
+(* ------------------------------------------------------------ re-synchronisation *)
+(* After a reported violation the affected ghost is set to the OBSERVED value, so that one defect is
+   reported where it happens and not again at every later step of the same history. *)
+Resync(g2, r, v) ==
+  LET idv == v \cap {"C08d-in-use-set", "C08a-acquire-not-unique", "C08a-register", "C08b-release-of-free-id"} # {}
+      seen == SeqToSet(r.dig.used)
+  IN
+  [g2 EXCEPT
+     !.used = IF idv THEN seen \cup { x \in @ : x > 40 } ELSE @,
+     !.held = IF idv THEN { x \in @ : x \in seen \/ x > 40 } ELSE @,
+     !.handled = IF "C07c-handled-set" \in v THEN SeqToSet(r.obs.qos2) ELSE @,
+     !.skew = IF "C12a-vacancy" \in v
+              THEN r.obs.vacancy - (IF g2.peerRM > Cardinality(g2.inflight) THEN g2.peerRM - Cardinality(g2.inflight) ELSE 0)
+              ELSE @]
 
 (* ----------------------------------------------------------------- dispatcher *)
 Viol(P, g, prev, r, g2) ==
